@@ -162,6 +162,7 @@ package soymsg
 //@   props C11
 //@   nosafety
 //@   modifies *
+//@   preserves F!github.com/robfig/soy/ast.* E!Iface:github.com/robfig/soy/ast.Node E!Int:*github.com/robfig/soy/ast.*
 //@   at call (*regexp.Regexp).FindAllStringIndex#0 assert[placeholders-of-the-whole-string;C11] same(arg1, str) && arg2 == -1
 //@   at call store#0 assert[text-before-the-placeholder;C11] substr(val, str, pos) && len(val) == start - pos
 //@   at call store#2 assert[name-without-braces;C11] substr(val, str, start + 1) && len(val) == end - start - 2
